@@ -586,6 +586,10 @@ def conf_to_scn(engine, c, steps, origin):
         opts["reffilter2"] = fl[1]
     if c.get("refTgt"):
         opts["reftgt"] = 1
+    extra = {}
+    if c.get("decline"):
+        # (D): the registry declines the mount of the first object of the shape
+        extra["mount_decline_n"] = [engine.cat[c["shape"]]["nodes"][0]["name"]]
     if c.get("plats"):
         opts["platforms"] = "linux/amd64"
     script = [{"op": s["op"], "host": s.get("host", ""), "class": s.get("class", ""), "n": s.get("n", ""),
@@ -594,7 +598,7 @@ def conf_to_scn(engine, c, steps, origin):
                       refapi_src=int(bool(c["refApiSrc"])), refapi_tgt=int(bool(c["refApiTgt"])), opts=opts,
                       bydigest=int(bool(c["byDigest"])), tgtbydigest=int(bool(c["tgtByDigest"])),
                       init=sorted(c["init"]), tag0=c["tag0"], conc=(3 if c.get("cap") else 16), mode="script",
-                      script=script, model={"ret": None})
+                      script=script, model={"ret": None}, **extra)
 
 
 def tlc_scripts(engine, cfg, n, origin, depth=400):
